@@ -17,7 +17,7 @@ MCKeys ==
      K(3, 8, (3 :> 9), (1 :> "x"), MCBucket - MCWindow),
      K(4, 8, (0 :> 1 @@ 46 :> 4), (2 :> "y" @@ 46 :> "zz"), MCBucket - MCWindow - 1),
      K(5, 9, (15 :> -3), <<>>, MCBucket + 1),
-     K(6, -1000, (1 :> 2), (0 :> "env"), MCBucket - 3600)}
+     K(6, -999, (1 :> 2), (0 :> "env"), MCBucket - 3600)}
 MCKeys1 == {k \in MCKeys : k.id = 3}
 
 (* tables for the conformance driver *)
